@@ -96,14 +96,15 @@ JS_RAW = ['var a = 1 ;', 'if ( a ) { b ( ) }', 'x = "a\'b" + 1 ;', 'var s = "<b>
           'a = "100%" ; b = "#x" ;', 'function f ( a , b ) { return a + b }\nf ( 1 , 2 ) ;', 'var a = 1 ;\nvar b = 2 ;\n']
 JS_ATTR = [' x = 1 ', 'javascript: f ( 1 ) ', 'JavaScript:a ( "q" )', 'a("x\'y")', 'a ( "&lt;" , \'&amp;\' )',
            'if ( a < b && c > d ) e ( )', 'a = "100%" + "#x" ; b ( )', 'a ( \'"\' ) ; b ( "\'" )', 'a = `x` ; b = 1 > 2']
-JS_BAD = ['var a = ;', 'a ( ; b']                       # syntax errors on the first line
+JS_BAD = ['var a = ;', 'a ( ; b', 'var a = 1 ;\nvar b = ;', 'f ( 1 ) ;\n\ng ( ; 2']     # syntax errors on the first or a later line
 CSS_RAW = ['a { color : red }', 'a > b { margin : 0 0 0 0 }', 'a::before { content : "<&>" }',
            'a { background : url( "x.png" ) }', '@media print { a { color : #ff0000 } }', 'a { color : red }\nb { color : blue }\n']
 CSS_ATTR = ['color : red ; margin : 0 0 0 0', ' content : "a\'b" ', "content : 'a\"b&amp;c'", 'width : 50% ; color : #aabbcc',
             'background : url( x.png?a=1&b=2 )', 'content : "<x>" ; color : red', 'color:red']
 CSS_SVGTEXT = ['a{color:red}', 'a>b{margin:0 0 0 0}', 'a::before{content:"x\'y"}', '.c{fill:#ff0000;stroke:rgb(0,0,0)}',
                'a{width:50%}']
-CSS_CDATA = ['a{color:red}', 'a>b{content:"<&>"}', 'a{content:"x\'y"}', '.c{fill:#ff0000}', 'a[b="]"]>c{d:e}']
+CSS_CDATA = ['a{color:red}', 'a>b{content:"<&>"}', 'a{content:"x\'y"}', '.c{fill:#ff0000}', 'a[b="]"]>c{d:e}',
+             'a{content:"x  y"}', 'a{content:"] ]>"}', 'a { color : red }  b{content:"p   q"}']
 CSS_SVGATTR = ['fill:red', 'content:"<&\'"', "content:'a\"b'", 'fill:#ff0000;stroke:rgb(0,0,0)', 'width:50%']
 HTML_RAW = ['<p> a  b </p>', '<b>x</b>   <i>y</i>', 'text   &amp; more', '<p>a</p>\n<p>b</p>']
 SVG_DOC = ['<svg><rect x="10.0" y="0"/></svg>', '<svg viewBox="0 0 10 10"><path d="M 10 10 L 20 20"/></svg>',
@@ -222,7 +223,7 @@ def make_reg(rnd, lit, pat, beh):
     """concrete registration; beh: 0 succeeding (recording stub or wrapped real minifier), 1 failing"""
     real = REAL_FOR_PAT.get(pat) if pat else REAL_FOR_LIT.get(lit)
     if beh == 1:
-        b, real = rnd.choice(['fail', 'fail', 'plainfail']), ''
+        b, real = rnd.choice(['fail', 'fail', 'fail2', 'plainfail']), ''
     elif real and rnd.random() < 0.5:
         b = 'real'
     else:
@@ -245,7 +246,7 @@ def make_case(ctx, hostkind, regcodes, shapes, menu, extra_regs=0, opts=False):
     # run with a newline and no encoded newline before the failing slot (the error position is computed on the
     # input buffer after earlier parts of it were rewritten in place)
     # (a real JS minifier counts as possibly failing: some of its payloads are syntax errors)
-    hasfail = any(r['beh'] in ('fail', 'plainfail') or r['real'] == 'js' for r in regs)
+    hasfail = any(r['beh'] in ('fail', 'fail2', 'plainfail') or r['real'] == 'js' for r in regs)
     lits = [x for x in LITS[hostkind] if not (hasfail and '\n ' in x)]
     parts = []
     usetmpl = any(sh[3] == 'template' for sh in shapes) or (hostkind == 'html' and rnd.random() < 0.1)
@@ -255,7 +256,7 @@ def make_case(ctx, hostkind, regcodes, shapes, menu, extra_regs=0, opts=False):
         slot = dict(kind=kind, hastype=hastype, type=typ if hastype else [], mt=mt)
         served = predict(regs, expected_type(slot))
         beh = served['beh'] if served else 'absent'
-        if kind in ('dataUriAttr', 'cssDataUri') and (beh in ('fail', 'plainfail') or (beh == 'real' and hasfail)):
+        if kind in ('dataUriAttr', 'cssDataUri') and (beh in ('fail', 'fail2', 'plainfail') or (beh == 'real' and hasfail)):
             # excluded construct (known finding, pinned witness kept): a failing minifier behind a data URI,
             # directly or nested inside the real minifier that serves the URI
             served['beh'], served['real'] = 'stub', ''
@@ -473,9 +474,9 @@ def run(ctx):
         rule='a case is (host kind, registry configuration, sequence of literal parts and embedded slots with kind, type '
              'attribute, payload, encoding); non-trivial = distinct (host, slot kind, type, payload) whose output slot decodes to '
              'something different from the payload (a nested minifier ran and its result was re-embedded).  Excluded '
-             'constructs (known findings, pinned witnesses kept): failing minifier behind a data: URI; nested error on a '
-             'later line of the payload (fail2); SVG style element with a non-CSS type attribute; whitespace runs inside '
-             'SVG style text/attributes/CDATA results; "]]>" in the result of a CDATA style; payloads in which the '
+             'constructs (known findings, pinned witnesses kept): failing minifier behind a data: URI; SVG style element '
+             'with a non-CSS type attribute; whitespace runs inside SVG style text/attributes (CDATA: allowed since fix '
+             '3bf3fd9); error positions after the host rewrote earlier input in place; payloads in which the '
              'minifier\'s result forms a character reference in an HTML attribute (& lt;).  Not generated: & and < in SVG '
              'style element text (passed to the minifier in escaped form); empty payloads only for script/style/iframe elements.',
         samples=samples,
